@@ -994,7 +994,8 @@ def rnd_key(rng, binary=False):
 def rnd_val(rng, binary):
     if not binary:
         n = rng.randrange(0, 20)
-        return ''.join(chr(rng.randrange(0x20, 0x7f)) for _ in range(n))
+        v = ''.join(chr(rng.randrange(0x20, 0x7f)) for _ in range(n))
+        return v if not v.startswith('@') else '.' + v[1:]      # ('@x:' / '@n:' prefixes are the scenario language's own)
     n = rng.choice([0, 1, 2, 3, 16, 33, 255])
     special = [0x00, 0xff, 0x0a, 0x2c, 0x3d, 0x80]
     return '@x:' + ''.join('%02x' % (rng.choice(special) if rng.random() < .3 else rng.randrange(256)) for _ in range(n))
